@@ -108,6 +108,9 @@ func ownBubble() (id, bubble string) {
 	return m[1], bubble
 }
 
+// QuiesceCalls / QuiesceSpins are debugging counters.
+var QuiesceCalls, QuiesceSpins int64
+
 // LastQuiesceDump is the snapshot the last Quiesce call decided on (debugging aid).
 var LastQuiesceDump string
 
@@ -127,7 +130,9 @@ type QuiesceInfo struct {
 // caller runs. Unlike synctest.Wait it tolerates mutex waits.
 func Quiesce() QuiesceInfo {
 	me, bubble := ownBubble()
+	QuiesceCalls++
 	for spin := 0; spin < 200000; spin++ {
+		QuiesceSpins++
 		for i := 0; i < 4; i++ {
 			runtime.Gosched()
 		}
